@@ -20,3 +20,13 @@ Proof.
   split; [exact A|]. split; [exact B|]. split; [exact C|]. split; [exact D|]. split; [exact E|]. split; [exact F|].
   split; [apply all_zero_accepted; exact Ha|]. split; [apply Nat.eqb_eq; exact Hl|]. split; apply Nat.eqb_eq; assumption.
 Qed.
+
+Theorem wire_example_full : exists c h, wire_example = Some (c, h) /\ wire_premises c h /\ accepted c h /\
+  length h = 6%nat /\ length (events c h) = 2%nat /\ length (flat_map r_outs h) = 3%nat.
+Proof.
+  assert (H : wire_example_ok = true) by (vm_compute; reflexivity).
+  unfold wire_example_ok in H. destruct wire_example as [[c h]|]; [|discriminate]. exists c, h. split; [reflexivity|].
+  rewrite !Bool.andb_true_iff in H. destruct H as ((((Hh & Ha) & Hl) & He) & Ho).
+  split; [apply wire_hyps_premises; exact Hh|]. split; [apply all_zero_accepted; exact Ha|].
+  split; [apply Nat.eqb_eq; exact Hl|]. split; apply Nat.eqb_eq; assumption.
+Qed.
